@@ -52,6 +52,72 @@ theorem slice_mid (a b c : List Nat) : slice (a ++ b ++ c) a.length b.length = b
 theorem get_mid (a : List Nat) (x : Nat) (c : List Nat) : (a ++ x :: c)[a.length]? = some x := by
   simp
 
+theorem slice_get (file : List Nat) (off k i : Nat) :
+    (slice file off k)[i]? = if i < k then file[off + i]? else none := by
+  unfold slice
+  rw [List.getElem?_take]
+  split
+  · rw [List.getElem?_drop]
+  · rfl
+
+/-- the reader's padding check, byte by byte: every byte of the file at an offset in `[off, t)` is
+    zero (offsets past the end of the file do not count) -/
+theorem padZero_iff (file : List Nat) (off t : Nat) :
+    padZero file off t = true ↔ ∀ i x, off ≤ i → i < t → file[i]? = some x → x = 0 := by
+  unfold padZero
+  rw [List.all_eq_true]
+  constructor
+  · intro h i x h1 h2 hx
+    have hmem : x ∈ slice file off (t - off) := by
+      rw [List.mem_iff_getElem?]
+      refine ⟨i - off, ?_⟩
+      rw [slice_get, if_pos (by omega), show off + (i - off) = i by omega]
+      exact hx
+    simpa using h x hmem
+  · intro h x hx
+    rw [List.mem_iff_getElem?] at hx
+    obtain ⟨j, hj⟩ := hx
+    rw [slice_get] at hj
+    split at hj
+    · have := h (off + j) x (by omega) (by omega) hj
+      simp [this]
+    · cases hj
+
+theorem padZero_false_iff (file : List Nat) (off t : Nat) :
+    padZero file off t = false ↔ ∃ i x, off ≤ i ∧ i < t ∧ file[i]? = some x ∧ x ≠ 0 := by
+  constructor
+  · intro h
+    apply Classical.byContradiction
+    intro hne
+    have : padZero file off t = true := by
+      rw [padZero_iff]
+      intro i x h1 h2 hx
+      apply Classical.byContradiction
+      intro hx0
+      exact hne ⟨i, x, h1, h2, hx, hx0⟩
+    rw [this] at h; cases h
+  · intro ⟨i, x, h1, h2, hx, hx0⟩
+    cases hp : padZero file off t with
+    | false => rfl
+    | true => exact absurd ((padZero_iff file off t).1 hp i x h1 h2 hx) hx0
+
+theorem zeros_get (n i x : Nat) (h : (zeros n)[i]? = some x) : x = 0 := by
+  unfold zeros at h
+  rw [List.getElem?_replicate] at h
+  split at h
+  · cases h; rfl
+  · cases h
+
+/-- **the writer's padding passes the reader's check**: the bytes `true_up` wrote are zero -/
+theorem padZero_zeros (file a c : List Nat) (n off t : Nat) (hfile : file = a ++ zeros n ++ c)
+    (h1 : a.length ≤ off) (h2 : t ≤ a.length + n) : padZero file off t = true := by
+  rw [padZero_iff]
+  intro i x hi1 hi2 hx
+  subst hfile
+  rw [List.append_assoc, List.getElem?_append_right (by omega),
+    List.getElem?_append_left (by simp [zeros]; omega)] at hx
+  exact zeros_get n _ x hx
+
 /-- reading one frame that sits at `pre.length` -/
 theorem read_frame (g : Good P) (pre suf payload : List Nat) (disc fuel : Nat)
     (hsz : payload.length ≤ P.tableFull) (hdisc : disc < 128) :
@@ -117,7 +183,9 @@ theorem nextHeader_succ (file : List Nat) (f off : Nat) :
       | none => .eof
       | some hsz =>
         if hsz = 0 then
-          if trueUp P (off + 1) - (off + 1) > P.H then .err else nextHeader P file f (trueUp P (off + 1))
+          if trueUp P (off + 1) - (off + 1) > P.H then .err
+          else if !padZero file (off + 1) (trueUp P (off + 1)) then .err
+          else nextHeader P file f (trueUp P (off + 1))
         else if hsz > P.H then .err
         else if off + 1 + hsz > file.length then .err
         else match P.decH (slice file (off + 1) hsz) with
@@ -135,10 +203,12 @@ theorem appendAt_succ (f pos : Nat) (buf : List Nat) :
             frame P SECOND (buf.drop (nextBoundary P pos - pos - P.H))
       else frame P WHOLE buf := rfl
 
-/-- a padding byte sends `next_header` to the block boundary -/
+/-- a padding byte sends `next_header` to the block boundary, provided the rest of the padding is
+    zero too -/
 theorem nextHeader_padding (g : Good P) (file : List Nat) (f off q r : Nat)
     (hget : file[off]? = some 0) (hq : q * P.B < off + r) (hoff : off + r = q * P.B + P.B)
-    (hr1 : 1 ≤ r) (hrH : r ≤ P.H) (hin : q * P.B ≤ off) :
+    (hr1 : 1 ≤ r) (hrH : r ≤ P.H) (hin : q * P.B ≤ off)
+    (hpad : padZero file (off + 1) (q * P.B + P.B) = true) :
     nextHeader P file (f + 1) off = nextHeader P file f (q * P.B + P.B) := by
   have hB : 0 < P.B := by have := g.hB; omega
   rw [nextHeader_succ, hget]
@@ -150,7 +220,8 @@ theorem nextHeader_padding (g : Good P) (file : List Nat) (f off q r : Nat)
       rw [this, trueUp_at, Nat.add_mul, Nat.one_mul]
     · exact trueUp_inside hB q (off + 1) (by omega) (by omega)
   rw [ht]
-  rw [if_neg (by omega)]
+  rw [if_neg (by omega), hpad]
+  simp only [Bool.not_true, Bool.false_eq_true, if_false]
 
 theorem nextFrame_of_header (file : List Nat) (f1 f2 off1 off2 : Nat)
     (h : nextHeader P file f1 off1 = nextHeader P file f2 off2) :
@@ -192,8 +263,10 @@ theorem append_read (g : Good P) (pre buf suf : List Nat) (hmax : buf.length + 2
       have hget : (pre ++ (zeros r ++ frame P WHOLE buf) ++ suf)[pre.length]? = some 0 := by
         obtain ⟨r', rfl⟩ : ∃ r', r = r' + 1 := ⟨r - 1, by omega⟩
         simp [zeros, List.replicate_succ]
+      have hpad : padZero (pre ++ (zeros r ++ frame P WHOLE buf) ++ suf) (pre.length + 1) (q * P.B + P.B) = true :=
+        padZero_zeros _ pre (frame P WHOLE buf ++ suf) r _ _ (by simp) (by omega) (by omega)
       have hskip := nextHeader_padding g (pre ++ (zeros r ++ frame P WHOLE buf) ++ suf) 1 pre.length q r
-        hget (by omega) (by omega) hr1 hrH (by omega)
+        hget (by omega) (by omega) hr1 hrH (by omega) hpad
       have hframe := read_frame_at g (pre ++ (zeros r ++ frame P WHOLE buf) ++ suf) (pre ++ zeros r) suf buf
         WHOLE 0 (q * P.B + P.B) htf (by decide) (by simp) (by simp [zeros_length]; omega)
       unfold nextBatch
@@ -243,7 +316,14 @@ theorem append_read (g : Good P) (pre buf suf : List Nat) (hmax : buf.length + 2
       simp only [FIRST, SECOND] at hframe2'
       have hnot : ¬ (q * P.B + P.B - (pre.length + (frame P 2 (List.take fb buf)).length) > P.H) := by
         have := hend; simp only [FIRST] at this; omega
-      simp only [htrue', hnot, if_false, hframe2', SECOND, if_true]
+      -- the padding between the two frames is the writer's zeros
+      have hpad : padZero (pre ++ (frame P FIRST (buf.take fb) ++ zeros z ++ frame P SECOND (buf.drop fb)) ++ suf)
+          (pre.length + (frame P FIRST (buf.take fb)).length) (q * P.B + P.B) = true :=
+        padZero_zeros _ (pre ++ frame P FIRST (buf.take fb)) (frame P SECOND (buf.drop fb) ++ suf) z _ _
+          (by simp) (by simp) (by simp only [List.length_append]; omega)
+      have hpad' := hpad
+      simp only [FIRST, SECOND] at hpad'
+      simp only [htrue', hnot, if_false, hpad', Bool.not_true, Bool.false_eq_true, hframe2', SECOND, if_true]
       congr 2
       · exact List.take_append_drop fb buf
       · have hend' := hend
